@@ -51,32 +51,66 @@ def reach(o, acc=None, seen=None):
 
 
 _DEFAULT_IDS = None
+_DEFAULT_IDS_ALL = None
 
 
-def declared_default_ids():
-    """Containers that are a model's *own* declared default value: the model's constructor itself
-    would share them, so adaptix reproducing that is not aliasing introduced by adaptix."""
-    global _DEFAULT_IDS  # noqa: PLW0603
-    if _DEFAULT_IDS is None:
-        acc = {}
-        for v in vars(pools).values():
-            if not isinstance(v, type):
-                continue
-            if hasattr(v, "_field_defaults"):
-                for d in v._field_defaults.values():
+def is_plain_literal(o, depth=0):
+    """Builtin containers (exact types) of builtin scalars, to any depth: the values the property's own mechanism says
+    are 'rendered as literals ... inside the function body', i.e. built anew by each call. The test is on the value
+    alone and independent of adaptix."""
+    if depth > 20:
+        return False
+    t = type(o)
+    if o is None or o is Ellipsis or t in (bool, int, str, bytes, bytearray):
+        return True
+    if t is float:
+        return o == o and o not in (float("inf"), float("-inf"))
+    if t in (list, tuple, set, frozenset):
+        return all(is_plain_literal(x, depth + 1) for x in o)
+    if t is dict:
+        return all(is_plain_literal(k, depth + 1) and is_plain_literal(v, depth + 1) for k, v in o.items())
+    return False
+
+
+
+def _collect_defaults(keep):
+    acc = {}
+    for v in vars(pools).values():
+        if not isinstance(v, type):
+            continue
+        if hasattr(v, "_field_defaults"):
+            for d in v._field_defaults.values():
+                if keep(d):
                     reach(d, acc)
-            if dataclasses.is_dataclass(v):
-                for f in dataclasses.fields(v):
-                    if f.default is not dataclasses.MISSING:
-                        reach(f.default, acc)
-            if attrs.has(v):
-                for a in attrs.fields(v):
-                    if not isinstance(a.default, attrs.Factory):
-                        reach(a.default, acc)
-            if pools.PM is not None and isinstance(v, type) and issubclass(v, pools.PM):
-                for fld in v.model_fields.values():
+        if dataclasses.is_dataclass(v):
+            for f in dataclasses.fields(v):
+                if f.default is not dataclasses.MISSING and keep(f.default):
+                    reach(f.default, acc)
+        if attrs.has(v):
+            for a in attrs.fields(v):
+                if not isinstance(a.default, attrs.Factory) and keep(a.default):
+                    reach(a.default, acc)
+        if pools.PM is not None and isinstance(v, type) and issubclass(v, pools.PM):
+            for fld in v.model_fields.values():
+                if keep(fld.default):
                     reach(fld.default, acc)
-        _DEFAULT_IDS = acc
+    return acc
+
+
+def declared_default_ids(everything=False):
+    """Containers that are a model's *own* declared default value and cannot be written as a literal: the model's
+    constructor itself would share them and adaptix can only pass them through, so that is not aliasing introduced by
+    adaptix. Plain literal defaults (is_plain_literal) are NOT excused: the property's mechanism renders them per call.
+
+    everything=True: every declared default object, literal or not. Python itself shares these between the instances
+    the *client* constructs, so the hostile client never scrambles them (it would be corrupting its own classes)."""
+    global _DEFAULT_IDS, _DEFAULT_IDS_ALL  # noqa: PLW0603
+    if everything:
+        if _DEFAULT_IDS_ALL is None:
+            _DEFAULT_IDS_ALL = _collect_defaults(lambda d: True)
+        return _DEFAULT_IDS_ALL
+    if _DEFAULT_IDS is None:
+        _DEFAULT_IDS = _collect_defaults(lambda d: not is_plain_literal(d))
     return _DEFAULT_IDS
 
 
@@ -153,12 +187,31 @@ def allowed_shared(op, arg, recipes):
     return acc
 
 
-def scramble(o, exclude):
-    """The hostile client: mutate in place every mutable container reachable from o."""
+def exc_payload_roots(e, depth=0):
+    """Values a client can reach from an exception adaptix raised: dataclass fields of load errors, children of
+    groups, the cause chain."""
+    if e is None or depth > 8:
+        return
+    if dataclasses.is_dataclass(e):
+        for f in dataclasses.fields(e):
+            if f.name != "exceptions":
+                yield getattr(e, f.name, None)
+    if isinstance(e, BaseExceptionGroup):
+        for s in e.exceptions:
+            yield from exc_payload_roots(s, depth + 1)
+    if e.__cause__ is not None:
+        yield from exc_payload_roots(e.__cause__, depth + 1)
+
+
+def scramble(o, exclude, hard=False):
+    """The hostile client: mutate in place every mutable container reachable from o. hard=True empties the
+    container first (a client that reuses a result as its own scratch space)."""
     n = 0
     objs = [x for i, x in reach(o).items() if i not in exclude]
     for x in objs:
         try:
+            if hard and isinstance(x, (list, dict, set, bytearray, collections.deque)):
+                x.clear()
             if isinstance(x, list):
                 x.insert(0, SCR)
             elif isinstance(x, dict):
